@@ -718,6 +718,12 @@ fn process_fn(
                 // proof hints
                 for (key, text) in &req.proofs {
                     let text = ctx.subst_param_refs(text, &params);
+                    if key == "end" {
+                        // before the closing brace of the function body (body must not end in a tail expression)
+                        let close = src.off(b.brace_token.span.close().start());
+                        ctx.edits.insert(close, format!("{}\n    ", text), "D2p", "proof hint inserted at end of body".to_string());
+                        continue;
+                    }
                     let (stmts, idx): (&Vec<syn::Stmt>, usize) = if let Some(rest) = key.strip_prefix("loop") {
                         let mut it = rest.splitn(2, ':');
                         let j: usize = it.next().unwrap_or("").parse().map_err(|_| format!("bad proof key {}", key))?;
